@@ -729,6 +729,49 @@ def _callees(fn):
     return out
 
 
+def alias_renamed(data, known):
+    """An anchored function that is gone while exactly one new function can be it - same name in another module (moved), or
+    same owner type and identical signature under another name (renamed) - is given its old path back everywhere in the facts.
+    Returns the fact dict (possibly re-parsed) and records data['renamed'] = {old: new}."""
+    have = {f["path"] for f in data["fns"]}
+    missing = sorted(k for k in known if k not in have)
+    if not missing:
+        return data
+    new = [f for f in data["fns"] if f["kind"] in ("Fn", "AssocFn") and f["path"] not in known]
+    ren = {}
+    taken = set()
+    for k in missing:
+        last = k.rsplit("::", 1)[-1]
+        owner = k.rsplit("::", 1)[0] if "::" in k else ""
+        c1 = [f for f in new if f["path"].rsplit("::", 1)[-1] == last and f["path"] not in taken]
+        pick = None
+        if len(c1) == 1:
+            pick = c1[0]
+        else:
+            sig = KNOWN_SIGS.get(k)
+            c2 = [f for f in new if f["path"].rsplit("::", 1)[0] == owner and f["path"] not in taken and sig is not None
+                  and [f.get("inputs"), f.get("output")] == sig]
+            if len(c2) == 1:
+                pick = c2[0]
+        if pick is not None:
+            ren[k] = pick["path"]
+            taken.add(pick["path"])
+    if not ren:
+        return data
+    txt = json.dumps(data)
+    for old, newp in sorted(ren.items(), key=lambda kv: -len(kv[1])):
+        txt = txt.replace(json.dumps(newp)[1:-1] + '"', json.dumps(old)[1:-1] + '"').replace(json.dumps(newp)[1:-1] + "::{", json.dumps(old)[1:-1] + "::{")
+    data = json.loads(txt)
+    data["renamed"] = ren
+    return data
+
+
+try:
+    KNOWN_SIGS = json.load(open(os.path.join(HERE, "known_sigs.json")))
+except Exception:
+    KNOWN_SIGS = {}
+
+
 def apply(data, known=None):
     """Mutates and returns the fact dict; adds data['inlined'] = {helper: [callers]} and data['inline_notes']."""
     known = known_fns() if known is None else known
@@ -737,6 +780,11 @@ def apply(data, known=None):
     if known is None:
         data["inline_notes"].append("known_fns.json missing: no inlining")
         return data
+    data = alias_renamed(data, known)
+    data.setdefault("inlined", {})
+    data.setdefault("inline_notes", [])
+    for old, newp in (data.get("renamed") or {}).items():
+        data["inline_notes"].append("anchor %s found as %s (moved/renamed): analysed under its anchor name" % (old, newp))
     fns = {f["path"]: f for f in data["fns"]}
     cand = {p for p, f in fns.items() if f["kind"] in ("Fn", "AssocFn") and p not in known and f.get("mir") and f.get("hir")
             and not p.startswith("<") and p != "main"}
